@@ -1,49 +1,23 @@
 (* driver.ml — trusted glue: reads cases (one per line: id <TAB> hex-encoded text), runs the
-   extracted model, prints one canonical line per case (same format as the Go probe). *)
-open Model
-
-let explode (s : string) : char list = List.init (String.length s) (String.get s)
-let implode (l : char list) : string =
-  let b = Buffer.create 64 in List.iter (Buffer.add_char b) l; Buffer.contents b
-
-let unhex (h : string) : string =
-  let n = String.length h / 2 in
-  String.init n (fun i -> Char.chr (int_of_string ("0x" ^ String.sub h (2 * i) 2)))
-let hex (s : string) : string =
-  let b = Buffer.create (2 * String.length s) in
-  String.iter (fun c -> Buffer.add_string b (Printf.sprintf "%02x" (Char.code c))) s; Buffer.contents b
-
+   extracted model subcommand, prints one canonical line per case (same format as the Go probe).
+   An OCaml exception / stack overflow in the model is printed as EXN (never hidden). *)
 let read_cases (file : string) : (string * string) list =
   let ic = open_in file in
   let rec go acc =
     match input_line ic with
     | line ->
       (match String.index_opt line '\t' with
-       | Some i -> go ((String.sub line 0 i, unhex (String.sub line (i + 1) (String.length line - i - 1))) :: acc)
+       | Some i -> go ((String.sub line 0 i, Registry.unhex (String.sub line (i + 1) (String.length line - i - 1))) :: acc)
        | None -> go acc)
     | exception End_of_file -> close_in ic; List.rev acc in
   go []
 
-let do_scan (txt : string) : string =
-  match scan_all (explode txt) with
-  | ScanHang -> "HANG"
-  | Tokens l ->
-    String.concat " " (List.map (fun (k, lx) ->
-        let nm = implode (tk_name k) in
-        if nm = "ILLEGAL" || nm = "EOF" then nm else nm ^ ":" ^ hex (implode lx)) l)
-
-let do_parse (txt : string) : string =
-  match parse_string (explode txt) with
-  | PErr _ -> "ERR"
-  | PPanic w -> "PANIC"
-  | PHang w -> "HANG"
-  | POk p -> "OK\t" ^ String.concat " ;; " (List.map implode (dump_program false p))
-
 let () =
   let cmd = Sys.argv.(1) in
+  let f = match Hashtbl.find_opt Registry.table cmd with
+    | Some f -> f
+    | None -> prerr_endline ("unknown subcommand " ^ cmd); exit 2 in
   let cases = read_cases Sys.argv.(2) in
-  let f = match cmd with
-    | "scan" -> do_scan
-    | "parse" -> do_parse
-    | _ -> prerr_endline "unknown subcommand"; exit 2 in
-  List.iter (fun (id, txt) -> print_string id; print_char '\t'; print_endline (f txt)) cases
+  List.iter (fun (id, txt) ->
+      let r = try f txt with Stack_overflow -> "EXN stack-overflow" | e -> "EXN " ^ Printexc.to_string e in
+      print_string id; print_char '\t'; print_endline r) cases
